@@ -214,7 +214,7 @@ struct XFault : Engine {
     std::string describe(const Case& c) override { return c.str() + " [" + (c.iv[2] ? "custom hooks" : "default allocator+realloc") + "] refuse request " + std::to_string(c.iv[3]) + (c.iv[4] ? " and all later" : ""); }
     void finish(std::map<std::string, std::string>& x) override {
         x["rule"] = jstr("one case = (scenario, allocator configuration, index k of the refused allocation request); k ranges over 1..N+1 where N is the number of requests the scenario makes (measured by a fault-free run); "
-                         "non-trivial = the fault fired and the call reported failure; distinct by construction (each triple enumerated once)");
+                         "non-trivial = the fault fired and the call reported failure; distinct by construction (each triple enumerated once); scenarios include every old x new length of SetValuestring over {0,1,10,63,64,255,256,257,300,1000,5000} and parses of tokens longer than any fixed buffer");
         x["bounds"] = jstr(std::to_string(scenarios().size()) + " scenarios x 2 allocator configurations x every request index; thorough adds 'every request from k on refused'");
     }
 };
